@@ -34,6 +34,9 @@ pub enum Op {
     Reinterpret(usize, u8),
     /// by-value conversion: 0 from_array/into_array, 1 From/Into, 2 tuple (N in 1..=12), 3 &[T;N] -> &GenericArray, 4 &mut [T;N] -> &mut GenericArray
     ByValue(u8),
+    /// zero-sized `()` elements only: a slice with more elements than isize::MAX (legal for zero-sized types) offered to the six
+    /// reinterpretation forms; selector 0..4 = isize::MAX, isize::MAX + 1, usize::MAX - 1, usize::MAX
+    ReinterpretHugeUnit(u8, u8),
 }
 
 #[derive(Clone, Debug, Serialize, Deserialize, PartialEq, Eq, Hash)]
@@ -134,6 +137,32 @@ where
         check_view("as_mut_slice after write", base, n, &want, a.as_mut_slice())?;
     }
     Ok(())
+}
+
+fn huge_unit_case<N: ArrayLength>(sel: u8, form: u8) -> Result<(), String> {
+    let n = N::USIZE;
+    let l = [isize::MAX as usize, isize::MAX as usize + 1, usize::MAX - 1, usize::MAX][sel as usize % 4];
+    // a slice of zero-sized elements occupies no memory whatever its length
+    let base = core::ptr::NonNull::<()>::dangling().as_ptr();
+    let src: &mut [()] = unsafe { core::slice::from_raw_parts_mut(base, l) };
+    let outcome: Result<Result<usize, LengthError>, String> = match form {
+        0 => engine::catch(|| GenericArray::<(), N>::from_slice(src) as *const _ as usize).map(Ok).map_err(|c| c.msg),
+        1 => engine::catch(|| GenericArray::<(), N>::try_from_slice(src).map(|r| r as *const _ as usize)).map_err(|c| format!("try_from_slice panicked: {}", c.msg)),
+        2 => engine::catch(|| GenericArray::<(), N>::from_mut_slice(src) as *mut _ as usize).map(Ok).map_err(|c| c.msg),
+        3 => engine::catch(|| GenericArray::<(), N>::try_from_mut_slice(src).map(|r| r as *mut _ as usize)).map_err(|c| format!("try_from_mut_slice panicked: {}", c.msg)),
+        4 => engine::catch(|| <&GenericArray<(), N>>::try_from(&src[..]).map(|r| r as *const _ as usize)).map_err(|c| format!("TryFrom<&[T]> panicked: {}", c.msg)),
+        _ => engine::catch(|| <&mut GenericArray<(), N>>::try_from(&mut src[..]).map(|r| r as *mut _ as usize)).map_err(|c| format!("TryFrom<&mut [T]> panicked: {}", c.msg)),
+    };
+    let name = ["from_slice", "try_from_slice", "from_mut_slice", "try_from_mut_slice", "TryFrom<&[T]>", "TryFrom<&mut [T]>"][form as usize % 6];
+    match outcome {
+        Ok(Ok(_)) => Err(format!("{name}: a slice of {l} zero-sized elements was reinterpreted as a GenericArray of length {n}")),
+        Ok(Err(LengthError)) => Ok(()),
+        Err(msg) if form == 0 || form == 2 => {
+            let _ = msg;
+            Ok(())
+        }
+        Err(msg) => Err(format!("{name} with L = {l}, N = {n}: {msg} (a fallible form must return LengthError)")),
+    }
 }
 
 fn reinterpret_case<T: Elem, N: ArrayLength>(l: usize, form: u8, salt: u32) -> Result<(), String> {
@@ -292,6 +321,11 @@ fn exec_typed<T: Elem>(case: &Case, acc: &mut Acc) -> Result<(), String> {
             acc.class(if l < case.n { "L_lt_N" } else if l == case.n { "L_eq_N" } else { "L_gt_N" });
             lat_const!(case.n, N, K, reinterpret_case::<T, N>(l, form, salt))?
         }
+        Op::ReinterpretHugeUnit(sel, form) => {
+            nontrivial = true;
+            acc.class("L_beyond_isize_MAX_zero_sized");
+            lat_const!(case.n, N, K, huge_unit_case::<N>(sel, form))?
+        }
         Op::ByValue(2) => tuple_case::<T>(case.n, salt)?,
         Op::ByValue(via) => lat_const!(case.n, N, K, by_value_case::<T, N, K>(via, salt))?,
     }
@@ -352,6 +386,13 @@ pub fn main() {
                 for via in [0u8, 1, 3, 4] {
                     g.push(Case { n, kind, op: Op::ByValue(via), salt: rnd() as u32 & 0xfffff });
                 }
+                if kind == Kind::Unit {
+                    for sel in 0..4u8 {
+                        for form in 0..6u8 {
+                            g.push(Case { n, kind, op: Op::ReinterpretHugeUnit(sel, form), salt: 0 });
+                        }
+                    }
+                }
                 if (1..=12).contains(&n) {
                     g.push(Case { n, kind, op: Op::ByValue(2), salt: rnd() as u32 & 0xfffff });
                 }
@@ -373,6 +414,7 @@ pub fn main() {
                     Op::Views(k, _) => (0u8, k as usize, 0u8),
                     Op::Reinterpret(l, f) => (1, l, f),
                     Op::ByValue(v) => (2, 0, v),
+                    Op::ReinterpretHugeUnit(s, f) => (3, s as usize, f),
                 }))
         });
     }
@@ -391,7 +433,7 @@ pub fn main() {
             prop: PROP,
             level: "exploration",
             rule: "case = (N in the 36-length lattice (to 4096), element kind u8/u32/(u8,u16)/()/drop-tracked/72-byte [u64;9]/32-byte-aligned, operation, seeded values). Views: as_slice, Deref, AsRef/Borrow<[T]>, AsRef<[T;N]>, iter(), &GenericArray::into_iter and the seven mutable counterparts must each start at the array's address, have N elements in index order; a write through each of the 7 mutable views is read back through all others. \
-                   Reinterpretation: slices of length L in {0, 1, N-1, N, N+1, N+2, 2N, 2N+1, random} through from_slice, try_from_slice, from_mut_slice, try_from_mut_slice, TryFrom<&[T]>, TryFrom<&mut [T]>: panic / LengthError iff L != N, fallible forms never panic, success aliases the source (pointer equality; a wrongly accepted reference is never dereferenced). \
+                   Reinterpretation: slices of length L in {0, 1, N-1, N, N+1, N+2, 2N, 2N+1, random} (and, for zero-sized elements, isize::MAX, isize::MAX+1, usize::MAX-1, usize::MAX) through from_slice, try_from_slice, from_mut_slice, try_from_mut_slice, TryFrom<&[T]>, TryFrom<&mut [T]>: panic / LengthError iff L != N, fallible forms never panic, success aliases the source (pointer equality; a wrongly accepted reference is never dereferenced). \
                    By value: from_array/into_array, From/Into, &[T;N] and &mut [T;N] conversions, all 12 tuple arities keep position i at i. \
                    non-trivial = L != N reinterpretation attempts and write-through cases with N > 0; distinct = distinct case tuples",
             exhaustive: false,
